@@ -281,6 +281,10 @@ func init() {
 			t := tasks[k]
 			var dfs func(hist []model.Op)
 			dfs = func(hist []model.Op) {
+				if pastDeadline() {
+					r.Truncated = true
+					return
+				}
 				r.Cases++
 				succ := memRunNode(t, hist, bound, &r.Violations, &r.Steps, &r.Points)
 				if len(hist) >= t.sc.Depth {
@@ -334,6 +338,7 @@ func init() {
 					return e
 				}
 			}
+			noteTruncated(rep, "C11", res...)
 			points := 0
 			for _, r := range res {
 				rep.Histories += int64(r.Steps)
